@@ -159,6 +159,62 @@ def run(ctx):
                 continue
             calls.append((50, [w_shapes(shapes), [[w_str(n), w_shape(so)] for n, so in extra], w_shape(vshape)]))
             meta.append(('replacement', text, (p['cls'], str(p['node']), smtgen.render_shape(vshape), cmds is f29), want))
+    # ---- partially reduced forms in ONE session (sort inference is re-initialised for every round of simplifications):
+    # (a) nothing cached for an earlier input may survive collect_information, (b) every sort inferred for a term of the
+    # reduced input is re-typed by the oracle
+    import props.c17 as c17
+    walk_calls, walk_meta = [], []
+    nwalk = 60 if ctx.thorough else 14
+    dt_text = ('(set-logic ALL)\n(declare-datatypes ((A 0) (B 0)) (((nilA) (mk (fa Int))) ((nilB) (mkb (fb Int)))))\n(declare-const p A)\n(declare-const q B)\n'
+               '(assert (= p (mk 1)))\n(assert (= q (mkb 1)))\n(assert (distinct q nilB))\n(check-sat)\n')
+    walk_scripts = [dt_text] + [smtgen.script_text(c) for c in rng.sample(scripts[:40], min(nwalk, len(scripts[:40])))]
+    for text in walk_scripts:
+        exprs = impl.parse(text)
+        for step in range(4):
+            smtlib.collect_information(exprs)
+            ids_now = set(impl.ids_of(exprs))
+            stale = [k for k in getattr(smtlib, '__get_sort_cache') if isinstance(k, int) and k not in ids_now]
+            if stale:
+                ctx.violation('impl-violation', input=impl.render(exprs, 'default'), observed=f'{len(stale)} entries of the sort cache refer to nodes of an earlier input after collect_information',
+                              expected='sort inference starts from scratch for every input (a cached sort may be wrong for the new declarations)')
+                break
+            shapes = impl.to_shapes(exprs)
+            simple = not any(isinstance(sh, tuple) and sh and sh[0] in ('declare-datatypes', 'define-funs-rec') for sh in shapes)
+            for n in impl.nodes.dfs(exprs):
+                try:
+                    so = smtlib.get_sort(n)
+                except Exception:  # noqa
+                    continue
+                if so is None or not simple:
+                    continue
+                scope = c17.scope_of(exprs, n, impl)
+                if any(x is None for _, x in scope):
+                    continue
+                walk_calls.append((50, [w_shapes(shapes), [[w_str(a), w_shape(b)] for a, b in scope], w_shape(impl.to_shape(n))]))
+                walk_meta.append((impl.render(exprs, 'default'), str(n)[:200], impl.to_shape(so)))
+            props_ = [p for p in P.enumerate_proposals(exprs) if 'error' not in p]
+            rng.shuffle(props_)
+            moved = False
+            for p in props_[:20]:
+                try:
+                    new = P.apply(exprs, p['simp'])
+                    if isinstance(new, list) and impl.to_shapes(new) != shapes:
+                        exprs = impl.nodes.reduplicate(new)
+                        moved = True
+                        break
+                except Exception:  # noqa
+                    continue
+            if not moved:
+                break
+    for (text, node, got_s), w in zip(walk_meta, model.batch(walk_calls)):
+        ctx.count('sorts of reduced forms re-typed')
+        if w == []:
+            continue                    # the oracle does not type this node (not a term / ill-sorted after reduction)
+        want_s = r_shape(w[0])
+        ctx.case(['walk', text, node], True)
+        if want_s != got_s:
+            ctx.violation('impl-violation', input=text, term=node, observed=f'get_sort = {smtgen.render_shape(got_s)} on a partially reduced input',
+                          expected=f'unknown or {smtgen.render_shape(want_s)}')
     res = model.batch(calls)
     for (kind, text, info, want), got in zip(meta, res):
         if kind == 'model-width':
